@@ -211,6 +211,19 @@ func destination(c *Check, r *Repo) {
 		c.OK("R-destination", "main.go/-output flag", "", "-output is not a package-level variable filled by flag.String in the initialiser: this value-shape rule does not apply (decided by R-cli-semantics)")
 		return
 	}
+	// when main.go moves files (the parser is generated beside the destination and renamed), the
+	// file opened for writing is by design not the destination: where the text ends up is decided
+	// by R-cli-semantics, which follows renames and removals
+	moves := false
+	for _, f := range r.allFuncs("") {
+		if strings.HasSuffix(r.Fset.Position(f.Pos()).Filename, "/main.go") {
+			instrsOf(f, func(in ssa.Instruction) {
+				if call, ok := in.(*ssa.Call); ok && calleeName(call) == "os.Rename" {
+					moves = true
+				}
+			})
+		}
+	}
 	nOpen := 0
 	for _, f := range r.allFuncs("") {
 		if !strings.HasSuffix(r.Fset.Position(f.Pos()).Filename, "/main.go") {
@@ -226,7 +239,9 @@ func destination(c *Check, r *Repo) {
 					nOpen++
 					writeOpens = append(writeOpens, x)
 					d := destinationShape(x.Call.Args[0], fg, 0)
-					if strings.Contains(d, unresolvedShape) {
+					if moves && d != "" {
+						c.OK("R-destination", fnName(f)+"/file opened for writing is named by -output or <grammar>.go", r.pos(x.Pos()), "main.go renames files: the file written need not be the destination; the shape rule does not apply (the final location is decided by R-cli-semantics)")
+					} else if strings.Contains(d, unresolvedShape) {
 						c.OK("R-destination", fnName(f)+"/file opened for writing is named by -output or <grammar>.go", r.pos(x.Pos()), "the name is computed by other functions of package main: the shape rule does not apply (decided by R-cli-semantics)")
 					} else {
 						c.Decide(d == "", "R-destination", fnName(f)+"/file opened for writing is named by -output or <grammar>.go", r.pos(x.Pos()),
